@@ -22,8 +22,10 @@ generated workbook and reaches it through every road the toolkit has:
             sheet argument, variable of the INSERTING flow used inside a block, argument of a block
             used in the inserting flow, argument of another template
   guards    none (evaluated -> must be an error) | un-taken branch | short-circuited operand | row
-            under a false include_if | inside a begin_block / begin_for that is excluded | loop over
-            nothing | block whose insert row is excluded | branch taken only for ANOTHER data row
+            under a false include_if (literal, native False, rendered "false"; and falsy objects that
+            are not the string "false": {@ none @}, {@ 0 @}, {@ [] @}) | inside a begin_block /
+            begin_for that is excluded | loop over nothing | block whose insert row is excluded |
+            branch taken only for ANOTHER data row
 
 The expectation is known by construction (a small reference interpreter over the abstract segments):
 `error` when the planted unknown name is evaluated in some generated instance, otherwise the exact
@@ -221,7 +223,9 @@ def other_row_possible(book, sheet):
 COLUMNS = ["message_text", "message_text", "message_text", "choices", "image", "condition", "include_if", "loop-list",
            "save_name", "group", "block-data_row_id", "block-template_arguments"]
 ROW_GUARDS = ["false-include_if", "false-include_if-native", "false-include_if-rendered", "excluded-block", "excluded-loop",
-              "loop-over-nothing", "excluded-insert-row"]
+              "loop-over-nothing", "excluded-insert-row", "falsy-include_if-none", "falsy-include_if-zero", "falsy-include_if-empty-list"]
+# include_if cells that exclude the row without rendering as the string "false" (RowParser: bool(value) of a native object)
+FALSY_INCLUDE = {"falsy-include_if-none": "{@ none @}", "falsy-include_if-zero": "{@ 0 @}", "falsy-include_if-empty-list": "{@ [] @}"}
 
 
 def gen_plant(rng, book, force):
@@ -369,8 +373,8 @@ class SheetBuilder:
     def site(self, column, cellpair, row_guard="none"):
         """one planted / filled reference in `column`"""
         text, fn = cellpair
-        inc = {"false-include_if": "FALSE", "false-include_if-native": "{@ 1 == 2 @}",
-               "false-include_if-rendered": "{% if false %}x{% else %}false{% endif %}"}.get(row_guard, "")
+        inc = dict({"false-include_if": "FALSE", "false-include_if-native": "{@ 1 == 2 @}",
+                    "false-include_if-rendered": "{% if false %}x{% else %}false{% endif %}"}, **FALSY_INCLUDE).get(row_guard, "")
         skipped = bool(inc)
         b = self
 
@@ -572,7 +576,7 @@ def build_sheets(book):
 def emit_plant(book, b):
     plant = book["plant"]
     guard = plant["guard"]
-    row_guard = guard if guard in ("false-include_if", "false-include_if-native", "false-include_if-rendered") else "none"
+    row_guard = guard if guard in ("false-include_if", "false-include_if-native", "false-include_if-rendered") or guard in FALSY_INCLUDE else "none"
     cell_guard = guard if (guard in TEXT_GUARDS or guard == "only-for-another-data-row") else "none"
 
     def the_site():
@@ -670,7 +674,7 @@ def realise(book, keep_interp=False):
             expect[name] = out
     except Evaluated:
         expect = "error"
-    real = dict(files=files, expect=expect, api="tsp" if mode == "tsp" else None)
+    real = dict(files=files, expect=expect, api="tsp" if mode == "tsp" else None, guard=plant["guard"])
     if keep_interp:
         real["_interp"] = run       # run() reads book["_run"]: the caller keeps it until done
     else:
@@ -728,6 +732,9 @@ def judge(real, res):
             return ("missing-name-renders", f"no error; delivered {res[1]!r}")
         return None
     if res[0] != "ok":
+        if real.get("guard") in FALSY_INCLUDE:
+            return ("falsy-include_if-row-evaluated", f"the reference sits in a row that `include_if` = {FALSY_INCLUDE[real['guard']]} excludes, "
+                                                      f"yet the run stops on it: {res[1:]!r}")
         return ("defined-not-exact", f"every evaluated reference is defined but the run stops: {res[1:]!r}")
     if res[1] != exp:
         return ("defined-not-exact", f"messages {res[1]!r}, expected {exp!r}")
@@ -756,7 +763,7 @@ def history_book(rng):
     elif r < 0.7:
         force.update(defined=True)
     book = gen_book(rng, force)
-    if len(book["ids"]) < 2:
+    if len(book["ids"]) < 2 or book["plant"]["guard"] in FALSY_INCLUDE:
         return history_book(rng)
     return book
 
